@@ -52,7 +52,7 @@ append(Array1 &&_array1, Array2 &&_array2)
 
   using element_type = fcppt::array::value_type<array1>;
 
-  using array1_size = fcppt::array::size<Array1>;
+  using array1_size = fcppt::array::size<array1>;
 
   return fcppt::array::init<
       fcppt::array::object<element_type, array1_size::value + fcppt::array::size<array2>::value>>(
